@@ -120,6 +120,20 @@ def run_case(case, drv):
             res.disagree("Ising_to_QUBO status", core.err_kind(e), "err:value")
         return res
 
+    # ---------------- a linear-term vector of the wrong length is rejected (model and code)
+    for hbad in (list(h)[:-1], list(h) + [Fraction(1)]):
+        try:
+            qt.Ising_to_QUBO(G.to_container(M, kind), np.array([float(x) for x in hbad]), float(const))
+            impl_bad = "ok"
+        except ValueError:
+            impl_bad = "err:value"
+        except Exception as e:  # noqa
+            impl_bad = core.err_kind(e)
+        rep_bad = drv.ask(f"i2q {fmat(M, r, c)} {fl(hbad)} {fs(const)}").split()[0]
+        if impl_bad != rep_bad:
+            res.disagree(f"Ising_to_QUBO with len(h)={len(hbad)} for n={r}", impl_bad, rep_bad)
+        if impl_bad == "ok":
+            res.fail("i2q:length-mismatch-accepted", f"Ising_to_QUBO accepted h of length {len(hbad)} for a {r}x{r} matrix")
     # ---------------- Ising -> QUBO (couplings = M with its diagonal)
     Jobj = G.to_container(M, kind)
     hobj = np.array([float(x) for x in h])
